@@ -63,6 +63,10 @@ def strategy(tier):
         if module == "Inverse":
             src = draw(st.sampled_from(["class", "class", "decoupled", "pattern"]))
         fmt = "dense" if module == "Inverse" else draw(st.sampled_from(["dense", "csc", "csr", "csc"]))
+        if module == "LinSolve" and fmt != "dense" and draw(st.integers(0, 3)) == 0:
+            # other scipy storage formats (LinSolve only: the partitioned modules index the matrix, which these formats
+            # do not support); "dia0" stores the main diagonal first (as sps.diags([main, low, upp], [0, -1, 1]) does)
+            fmt = draw(st.sampled_from(["coo", "dia", "dia0", "lil"]))
         c = {"module": module, "src": src, "fmt": fmt, "cplx": draw(st.booleans()),
              "cond": draw(st.sampled_from([10.0, 100.0, 1000.0])), "payload_seed": draw(SEED)}
         if src == "fe":
@@ -202,7 +206,7 @@ def _fe_build(case, rng):
     rest = np.setdiff1d(np.arange(n), side)
     ne = min(case["bc_extra"], max(len(rest) - 2, 0))
     bc = np.unique(np.concatenate([side, rng.choice(rest, size=ne, replace=False)])) if ne else np.unique(side)
-    mt = {"csc": sps.csc_matrix, "csr": sps.csr_matrix, "dense": sps.csc_matrix}[case["fmt"]]
+    mt = {"csr": sps.csr_matrix}.get(case["fmt"], sps.csc_matrix)
     kw = {"domain": dom, "matrix_type": mt}
     if case["bc_in_matrix"] or case["module"] == "LinSolve":      # LinSolve needs a non-singular matrix
         kw["bc"] = bc
@@ -228,7 +232,13 @@ def _to_fmt(A, fmt):
     import scipy.sparse as sps
     if fmt == "dense":
         return np.array(A.todense()) if sps.issparse(A) else np.array(A)
-    f = sps.csc_matrix if fmt == "csc" else sps.csr_matrix
+    if fmt in ("dia", "dia0"):
+        d = sps.dia_matrix(A)
+        if fmt == "dia0" and 0 in d.offsets:
+            order = np.argsort(d.offsets != 0, kind="stable")        # offset 0 first, the others in their order
+            d = sps.dia_matrix((d.data[order], d.offsets[order]), shape=d.shape)
+        return d
+    f = {"csc": sps.csc_matrix, "csr": sps.csr_matrix, "coo": sps.coo_matrix, "lil": sps.lil_matrix}[fmt]
     return f(A)
 
 
@@ -240,12 +250,21 @@ def _dense(A):
 def _snap(s):
     import scipy.sparse as sps
     if sps.issparse(s):
+        if s.format not in ("csr", "csc"):      # coo / dia / lil: compared through a canonical copy
+            c = s.tocsr()
+            return ("spx", type(s), s.shape, c.data.copy(), c.indices.copy(), c.indptr.copy())
         return ("sp", type(s), s.shape, s.data.copy(), s.indices.copy(), s.indptr.copy())
     return ("nd", type(s), np.array(s, copy=True))
 
 
 def _same_snap(snap, s):
     import scipy.sparse as sps
+    if snap[0] == "spx":
+        if not (sps.issparse(s) and type(s) is snap[1] and s.shape == snap[2]):
+            return False
+        c = s.tocsr()
+        return (np.array_equal(c.data, snap[3]) and np.array_equal(c.indices, snap[4])
+                and np.array_equal(c.indptr, snap[5]))
     if snap[0] == "sp":
         return (sps.issparse(s) and type(s) is snap[1] and s.shape == snap[2] and np.array_equal(s.data, snap[3])
                 and np.array_equal(s.indices, snap[4]) and np.array_equal(s.indptr, snap[5]))
